@@ -173,6 +173,20 @@ CHECKS = {
             'namespace surviving a namespace re-connect) classifies that one '
             'history pattern as KNOWN-FINDING, everything else is a '
             'VIOLATION.'),
+    'C18': ('DESIGN 4/C18',
+            'Twin simulation: the same seeded application history (connects, '
+            'rooms, events with acks incl. binary, emits with skip_sid, '
+            'callbacks, disconnects) is executed on a plain server and on an '
+            'instrument()ed twin (Server and AsyncServer; auth as dict / list '
+            '/ sync / async predicate / False; development / production; '
+            'read_only on/off) with 0-2 admin wire peers connected; before '
+            'it, a list of admin CONNECT attempts with generated auth '
+            'payloads (absent, None, non-dicts, sub/supersets, permuted, '
+            'type-confused, nested, operator-like); in read-only mode every '
+            'admin command with real rooms and sids. Oracle = accept iff '
+            'disabled / equal / member / predicate, refused attempts gain no '
+            'membership, read-only commands have no effect, per-peer '
+            'application traces equal between the twins.'),
     'C19': ('DESIGN 4/C19',
             'Seeded search over producer/consumer schedules: a consumer '
             'script (receive with timeout None/small/large, emit, call, '
